@@ -16,7 +16,7 @@ RULE = ("(1) tree level: regression corpus + snippets + random programs + shape 
 
 
 def cases_tree(O):
-    return E.default_cases(O, "C01", n_quick=250, n_thorough=4000)
+    return E.default_cases(O, "C01", n_quick=700, n_thorough=4000)
 
 
 def cases(O):
@@ -45,7 +45,7 @@ def core_tie(O):
     language, the extracted [sem_tie] abstracts the input expression, applies rw, and compares with the abstraction of what
     the implementation (and the executable model) produced."""
     import coregen
-    n = 600 if O.tier == "quick" else 8000
+    n = 1500 if O.tier == "quick" else 10000
     cs = []
     for i in range(n):
         rng = random.Random("%s/c01core/%d" % (O.seed, i))
